@@ -15,14 +15,36 @@ pub fn run(cfg: &Cfg, rep: &mut Report) {
     run_cases(cfg, "arity", ntrees, rep, |rng, ctx| {
         let (specs, nh) = TreeGen::generate(rng, true);
         let arity: Vec<(usize, usize)> = (0..nh).map(|_| (rng.usize(5), rng.usize(5))).collect();
-        let handlers: Vec<Script> = (0..nh)
+        // pull order: usually required first then optional, sometimes interleaved (optional pulls before required ones)
+        let orders: Vec<Vec<bool>> = (0..nh)
             .map(|i| {
                 let (m, o) = arity[i];
-                let mut pulls = vec![Pull { optional: false, conv: Conv::Token }; m];
-                pulls.extend(vec![Pull { optional: true, conv: Conv::Token }; o]);
-                Script { id: i as u32, pulls, ..Default::default() }
+                let mut v = vec![false; m];
+                v.extend(vec![true; o]);
+                if rng.chance(1, 4) {
+                    for k in (1..v.len()).rev() {
+                        let j = rng.usize(k + 1);
+                        v.swap(k, j);
+                    }
+                }
+                v
             })
             .collect();
+        let handlers: Vec<Script> = (0..nh).map(|i| Script { id: i as u32, pulls: orders[i].iter().map(|o| Pull { optional: *o, conv: Conv::Token }).collect(), ..Default::default() }).collect();
+        // outcome of a handler with pull order `ord` on a unit with n elements: (offered, nones, missing-parameter?)
+        let outcome = |ord: &Vec<bool>, n: usize| -> (usize, usize, bool) {
+            let (mut k, mut nones) = (0usize, 0usize);
+            for opt in ord {
+                if k < n {
+                    k += 1;
+                } else if *opt {
+                    nones += 1;
+                } else {
+                    return (k, nones, true);
+                }
+            }
+            (k, nones, false)
+        };
         let built: Built<Dev, Script> = Built::new(&specs, handlers);
         let rt = RTree::from_specs(&specs);
         let mut dev = Dev::new();
@@ -102,7 +124,9 @@ pub fn run(cfg: &Cfg, rep: &mut Report) {
                 let n = kinds.len();
                 expect_units = i + 1;
                 let pos = if plan.len() == 1 { "only" } else if i == 0 { "first" } else if i + 1 == plan.len() { "last" } else { "middle" };
-                if n < m {
+                let (_, _, missing) = outcome(&orders[*h], n);
+                let _ = m;
+                if missing {
                     expect_err = Some(-109);
                     ctx.count(&format!("unit.too-few.{}", pos));
                     h64 = mix(h64, 1 + 16 * (n as u64) + 256 * (m as u64));
@@ -170,18 +194,16 @@ pub fn run(cfg: &Cfg, rep: &mut Report) {
                     }
                     Ev::PullNone => nones += 1,
                     Ev::PullErr(code) => {
-                        let (m, _o) = arity[plan[unit].0];
                         let n = plan[unit].2.len();
-                        if !(n < m && *code == -109 && k == n) {
+                        let (_, _, missing) = outcome(&orders[plan[unit].0], n);
+                        if !(missing && *code == -109 && k == n) {
                             bad = Some(format!("pull-error-{}-unexpected", code));
                             break;
                         }
                     }
                     Ev::Return { .. } => {
-                        let (m, o) = arity[plan[unit].0];
                         let n = plan[unit].2.len();
-                        let want_k = n.min(m + o);
-                        let want_nones = if n >= m { (m + o).saturating_sub(n) } else { 0 };
+                        let (want_k, want_nones, _) = outcome(&orders[plan[unit].0], n);
                         if k != want_k {
                             bad = Some("handler-offered-wrong-number-of-elements".into());
                             break;
